@@ -1193,13 +1193,12 @@ class _SetIndexPost(Blockwise):
         if self.frame.npartitions < len(divisions) - 1:
             part_filter = list(self.frame.find_operations(PartitionsFiltered))
             if len(part_filter) > 0:
+                partitions = list(part_filter[0]._partitions)
+                if any(a >= b for a, b in zip(partitions[:-1], partitions[1:])):
+                    # Reordered or repeated partitions are not sorted anymore
+                    return (None,) * (len(partitions) + 1)
                 return tuple(
-                    [
-                        div
-                        for i, div in enumerate(divisions)
-                        if i in part_filter[0]._partitions
-                    ]
-                    + [divisions[-1]]
+                    [divisions[i] for i in partitions] + [divisions[partitions[-1] + 1]]
                 )
             else:
                 return self.frame.divisions
